@@ -2,8 +2,11 @@ mod c01;
 mod c02;
 mod c03;
 mod c04;
+mod c05;
 mod c06;
 mod c07;
+mod c08;
+mod c09;
 mod c11;
 mod c12;
 mod c13;
@@ -12,6 +15,7 @@ mod c18;
 mod c19;
 mod fstrace;
 mod model;
+mod sched;
 mod util;
 
 use util::*;
@@ -40,6 +44,9 @@ fn main() {
         }
         "c06" => c06::run(&args),
         "c07" => c07::run(&args),
+        "c05" => c05::run(&args),
+        "c08" => c08::run(&args),
+        "c09" => c09::run(&args),
         "c16" => c16::run(&args),
         "c18" => c18::run(&args),
         "c19" => c19::run(&args),
